@@ -625,3 +625,129 @@ theorem eventsSax_err (m : NsMap) (isDt : Str → Bool) (evs : List Ev) (x : Err
 theorem Inv.init (e : Env) : Inv e {} := ⟨Sim.refl e _ _, by intro h; cases h⟩
 
 end Xs.Backends
+
+namespace Xs.Backends
+open Py Xs.Bind
+
+/-! ### `etree.indent` only touches layout -/
+
+theorem treeTail_setTail (t : Tree) (x : Option Str) : treeTail (treeSetTail t x) = x := by
+  cases t; rfl
+
+theorem setTail_setTail (t : Tree) (x y : Option Str) : treeSetTail (treeSetTail t x) y = treeSetTail t y := by
+  cases t; rfl
+
+theorem treeTail_stripLayout (e : Env) (t : Tree) : treeTail (stripLayout e t) = treeTail t := by
+  cases t with
+  | node q a ns tx kids tl => cases kids <;> simp [stripLayout, treeTail]
+
+theorem stripLayout_setTail (e : Env) (t : Tree) (x : Option Str) :
+    stripLayout e (treeSetTail t x) = treeSetTail (stripLayout e t) x := by
+  cases t with
+  | node q a ns tx kids tl => cases kids <;> simp [stripLayout, treeSetTail]
+
+theorem treeTail_indentNode (e : Env) (sp : Str) (l : Nat) (t : Tree) :
+    treeTail (indentNode e sp l t) = treeTail t := by
+  cases t with
+  | node q a ns tx kids tl => cases kids <;> simp [indentNode, treeTail]
+
+theorem wsOnly_indentation (e : Env) (sp : Str) (l : Nat) (h : W e sp = true) :
+    wsOnly e (some (indentation sp l)) = true := by
+  have h1 := W_strMul e sp (l : Int) h
+  have h2 : e.isSpace '\n' = true := by simpa [W] using W_newline e
+  simp only [wsOnly, indentation, List.all_cons, Bool.and_eq_true]
+  exact ⟨h2, by simpa [W] using h1⟩
+
+mutual
+theorem stripLayout_indentNode (e : Env) (sp : Str) (h : W e sp = true) (l : Nat) (t : Tree) :
+    stripLayout e (indentNode e sp l t) = stripLayout e t := by
+  match t with
+  | .node q a ns tx [] tl => simp [indentNode]
+  | .node q a ns tx (k :: ks) tl =>
+    have hk := stripLayoutKids_indentKids e sp h l (k :: ks)
+    simp only [indentNode]
+    simp only [indentKids] at hk ⊢
+    simp only [stripLayout]
+    simp only [stripLayoutKids] at hk ⊢
+    rw [hk]
+    congr 1
+    by_cases hw : wsOnly e tx = true
+    · simp [hw, wsOnly_indentation e sp l h]
+    · simp [hw]
+theorem stripLayoutKids_indentKids (e : Env) (sp : Str) (h : W e sp = true) (l : Nat) (ks : List Tree) :
+    stripLayoutKids e (indentKids e sp l ks) = stripLayoutKids e ks := by
+  match ks with
+  | [] => simp [indentKids]
+  | k :: ks' =>
+    have h1 := stripLayout_indentNode e sp h (l + 1) k
+    have h2 := stripLayoutKids_indentKids e sp h l ks'
+    simp only [indentKids, stripLayoutKids]
+    rw [h2]
+    congr 1
+    rw [treeTail_indentNode]
+    by_cases hw : wsOnly e (treeTail k) = true
+    · simp only [hw, if_true]
+      rw [stripLayout_setTail, h1, treeTail_setTail]
+      have : wsOnly e (some (if ks'.isEmpty = true then indentation sp (l - 1) else indentation sp l)) = true := by
+        split
+        · exact wsOnly_indentation e sp _ h
+        · exact wsOnly_indentation e sp _ h
+      rw [this, treeTail_stripLayout, hw]
+      simp [setTail_setTail]
+    · simp only [hw]
+      simp only [Bool.false_eq_true, if_false]
+      rw [h1]
+end
+
+end Xs.Backends
+
+namespace Xs.Backends
+open Py Xs.Bind
+
+/-! ### without indentation the native writer makes exactly the inherited calls -/
+
+theorem step_flat (m : NsMap) (isDt : Str → Bool) (indent : Option Str) (hi : indentOn indent = none)
+    (s s' : IState) (ev : Ev) (h : s.out = s.w.out.map ISax.sax) (hs : s.step m isDt indent ev = .ok s') :
+    s'.out = s'.w.out.map ISax.sax := by
+  have key : ∀ s1, s.super m isDt ev = .ok s1 → s1.out = s1.w.out.map ISax.sax := by
+    intro s1 h1
+    cases hst : s.w.step m isDt ev with
+    | error x => rw [super_err hst] at h1; cases h1
+    | ok w' =>
+      obtain ⟨d, hd⟩ := step_out_append m isDt s.w ev w' hst
+      rw [super_of_step hst hd] at h1
+      cases h1
+      simp [h, hd]
+  cases ev with
+  | attr q d => exact key s' (by simpa only [IState.step] using hs)
+  | data d => exact key s' (by simpa only [IState.step] using hs)
+  | «end» q => exact key s' (by simpa only [IState.step, hi] using hs)
+  | start q =>
+    simp only [IState.step, hi] at hs
+    cases h1 : s.super m isDt (.start q) with
+    | error x => rw [h1] at hs; cases hs
+    | ok s1 =>
+      rw [h1] at hs
+      cases hs
+      exact key _ h1
+
+theorem run_flat (m : NsMap) (isDt : Str → Bool) (indent : Option Str) (hi : indentOn indent = none)
+    (evs : List Ev) (s sf : IState) (h : s.out = s.w.out.map ISax.sax)
+    (hs : evs.foldlM (IState.step m isDt indent) s = .ok sf) : sf.out = sf.w.out.map ISax.sax := by
+  induction evs generalizing s with
+  | nil =>
+    have h' : (Except.ok s : Except Err IState) = .ok sf := hs
+    cases h'; exact h
+  | cons ev evs ih =>
+    cases h1 : s.step m isDt indent ev with
+    | error x => rw [foldlM_cons_err _ _ _ _ _ h1] at hs; cases hs
+    | ok s1 =>
+      rw [foldlM_cons_ok _ _ _ _ _ h1] at hs
+      exact ih s1 (step_flat m isDt indent hi s s1 ev h h1) hs
+
+theorem renderDoc_map_sax (d : Nat) (xs : List Sax) : renderDoc d (xs.map ISax.sax) = xs := by
+  induction xs generalizing d with
+  | nil => rfl
+  | cons x xs ih => cases x <;> simp [renderDoc, ih]
+
+end Xs.Backends
